@@ -1,7 +1,7 @@
 """C03 -- hash is independent of how the input is chunked, finalized or cloned."""
 from .. import sym, callgraph
 from ..norm import n, P, C, V, ANY, match, find_all
-from . import common, cmpmodel, witness
+from . import common, cmpmodel, witness, layout, panics
 
 ID = "C03"
 CONFIGS = {"quick": ["K0", "K7"], "thorough": ["K0", "K1", "K7", "K8", "K13"]}
@@ -14,12 +14,17 @@ META = {
         "types is the derived one over plain data (integers and integer arrays), so clones share no state.  As a necessary "
         "condition for chunking independence: every exit path of update() either returns from the tail-fill prologue having "
         "written the tail and its length, returns at the saturation guard, or passes the window loop and then a write that "
-        "covers the tail; the wrappers forward arguments unchanged.  NOT decided: that the three tail-maintenance paths "
-        "compute the right offsets for every split (arithmetic on run-time lengths)."
+        "covers the tail; the wrappers forward arguments unchanged.  The tail arithmetic itself is decided per update() call by "
+        "affine-window evaluation with a finite case split on the lengths involved (R-03.5, R-03.6): for len(D) = 0..8 and "
+        "len(D) >= 9 every feasible loop-exit path leaves tail = last TAIL_SIZE bytes of old_tail ++ D, the loop body never "
+        "writes the tail, and for tail_len = 0..4 the tail-fill prologue appends min(len, TAIL_SIZE - tail_len) bytes, "
+        "stores the new tail_len and hands exactly the remaining bytes to the window loop.  Together with C01 R-01.3 (the "
+        "loop is seeded from tail[0..4] and shifts its window by one byte per iteration) this is the one-step case of "
+        "chunking independence; the induction over histories is a paper argument, not machine-checked."
     ),
     "trusted_base": ["rustc nightly front end (types, Freeze query, derive expansion)", "Rust aliasing rules: no mutation through & without UnsafeCell or raw-pointer writes"],
     "assumptions": [],
-    "not_decided": ["tail/offset arithmetic at chunk boundaries for every split"],
+    "not_decided": ["the induction from one update() call to arbitrary histories (paper argument)", "bucket/checksum state equality across splits beyond the tail hand-over"],
 }
 TECHNIQUE = "type-level facts (receiver, Freeze, derived Clone), must-pass-through path rule, compile-pass/compile-fail witness"
 
@@ -29,6 +34,8 @@ def run(ctx, FS):
         readonly(ctx, F)
         clones(ctx, F)
         tail(ctx, F)
+        tail_windows(ctx, F)
+        prologue_windows(ctx, F)
         wrappers(ctx, F)
     witness.finalize_shared(ctx, "R-03.1")
 
@@ -150,10 +157,15 @@ def tail(ctx, F):
         for c in p.calls:
             if p.blocks.index(c[0]) < after_bb_index:
                 continue
-            if c[1] in ("core::slice::<impl [T]>::copy_from_slice", "core::slice::<impl [T]>::copy_within"):
+            nm = c[1].rsplit("::", 1)[-1]
+            if nm in ("copy_from_slice", "copy_within") and c[2]:
                 a0 = n(c[2][0])
                 if find_all(a0, lambda x: x == TAIL):
-                    out.append((c[1].rsplit("::", 1)[-1], a0))
+                    out.append((nm, a0))
+            elif nm in ("copy_nonoverlapping", "copy") and len(c[2]) == 3:
+                a1 = n(c[2][1])
+                if find_all(a1, lambda x: x == TAIL):
+                    out.append((nm, a1))
         return out
 
     for p in rets:
@@ -162,9 +174,8 @@ def tail(ctx, F):
         wrote_tlen = [s for s in p.stores if n(s[1]) == TLEN]
         if hit_hdr:
             tw = tail_writes(p, hit_hdr[0])
-            full = any(nm == "copy_from_slice" and a0 in (("ref", TAIL), TAIL, ("cast", "PointerCoercion(Unsize, Implicit)", "&mut [u8]", ("ref", TAIL))) for nm, a0 in tw)
-            shift = [nm for nm, a0 in tw] == ["copy_within", "copy_from_slice"]
-            if not (full or shift):
+            # which bytes are written is R-03.5's business; here: some bulk write into the tail follows the loop
+            if not tw:
                 bad.append("a path through the window loop returns without rewriting the tail (tail writes after the loop: %s)" % [nm for nm, _ in tw])
             else:
                 kinds["loop+tail"] += 1
@@ -187,6 +198,455 @@ def tail(ctx, F):
     ctx.ob(r, ("Generator::update", "tail-carried-on-every-exit"), not bad and all(kinds.values()) and bool(loops),
            "; ".join(sorted(set(bad))[:3]) or "path kinds %s, loop paths %d" % (kinds, len(loops)), cfg=F.key, where=b.where(), detail=kinds)
     # the loop is seeded from tail[0..4] (window locals) -- see C01 R-01.3; the loop iterates over the slice that was counted -- see C11 R-11.3
+
+
+SLICE_LEN = "core::slice::<impl [T]>::len"
+ITER_ADAPTERS = ("slice::<impl [T]>::iter", "Iterator::copied", "Iterator::cloned", "IntoIterator::into_iter")
+
+
+def _iter_source(e):
+    while e[0] == "call" and len(e[2]) == 1 and e[1].endswith(ITER_ADAPTERS):
+        e = e[2][0]
+    return e
+
+
+def _peel(e):
+    while True:
+        if e[0] == "ref":
+            e = e[-1]
+        elif e[0] == "cast":
+            e = e[3]
+        elif e[0] == "call" and len(e[2]) == 1 and e[1].endswith(("::as_mut_slice", "::as_slice", "::as_mut", "::as_ref")):
+            e = e[2][0]
+        else:
+            return e
+
+
+def _subst(e, D, TAIL, T, extra=None):
+    """replace the iterated slice by the opaque atom D, len(tail) by its constant and the `extra` sub-expressions by theirs."""
+    if e == D:
+        return ("param", "D")
+    if extra and isinstance(e, tuple) and e in extra:
+        return extra[e]
+    if isinstance(e, tuple):
+        if len(e) == 3 and e[0] == "call" and e[1] == SLICE_LEN and len(e[2]) == 1 and _peel(e[2][0]) == TAIL:
+            return C(T)
+        return tuple(_subst(x, D, TAIL, T, extra) for x in e)
+    return e
+
+
+def _lin(e, env):
+    saved, panics.SYMLEN[0] = panics.SYMLEN[0], None
+    try:
+        c, d = panics.lin(e, env)
+    finally:
+        panics.SYMLEN[0] = saved
+    LD = ("call", SLICE_LEN, (("param", "D"),))
+    if any(k != LD for k in d):
+        return None
+    return (d.get(LD, 0), c)  # a*L + c
+
+
+def _ptr(e):
+    """(base slice expression, element offset) of a raw element pointer expression."""
+    e0 = e
+    off = C(0)
+    while True:
+        if e[0] == "cast":
+            e = e[3]
+        elif e[0] == "call" and len(e[2]) == 2 and e[1].endswith(("::add", "::offset", "::wrapping_add")):
+            off = layout.add(off, e[2][1])
+            e = e[2][0]
+        elif e[0] == "call" and len(e[2]) == 1 and e[1].endswith(("::as_ptr", "::as_mut_ptr")):
+            return (e[2][0], off)
+        else:
+            return None
+
+
+def _tail_ops(p, start_index, D, TAIL, T, env, end_index=1 << 30, extra=None):
+    """ordered tail-writing operations on path p from block position start_index on:
+    ('D', lo, hi, delta) : tail[j] = D[j + delta] for j in [lo, hi);  ('old', lo, hi, delta): tail[j] = tail_before[j + delta];
+    ('?', description) for a construct that mentions the tail mutably and is not understood.  lo/hi/delta are (a, c) = a*len(D) + c."""
+    DP = ("param", "D")
+    ops = []
+    order = {bb: i for i, bb in enumerate(p.blocks)}
+
+    def win(e, base):
+        w = layout.window(e, base)
+        if w is None:
+            pe = _peel(e)
+            w = layout.window(pe, base) if pe != e else None
+        return w
+
+    def L(e):
+        return _lin(e, env)
+
+    for c in p.calls:
+        if not (start_index <= order.get(c[0], -1) < end_index):
+            continue
+        nm = c[1].rsplit("::", 1)[-1]
+        args = [_subst(n(a), D, TAIL, T, extra) for a in c[2]]
+        mentions = any(find_all(a, lambda x: x == TAIL) for a in args)
+        if not mentions:
+            continue
+        if nm == "copy_from_slice" and len(args) == 2:
+            dw = win(args[0], TAIL) or win(_peel(args[0]), TAIL)
+            if dw is None and _peel(args[0]) == TAIL:
+                dw = (C(0), None)
+            sw = win(args[1], DP)
+            if dw is None or sw is None:
+                if find_all(args[0], lambda x: x == TAIL):
+                    ops.append(("?", "copy_from_slice(%s, %s)" % (sym.fmt(args[0]), sym.fmt(args[1]))))
+                continue
+            dlo, dhi = L(dw[0]), (L(dw[1]) if dw[1] is not None else (0, T))
+            slo, shi = L(sw[0]), (L(sw[1]) if sw[1] is not None else (1, 0))
+            if None in (dlo, dhi, slo, shi):
+                ops.append(("?", "copy_from_slice with non-affine bounds: %s <- %s" % (sym.fmt(args[0]), sym.fmt(args[1]))))
+                continue
+            ops.append(("D", dlo, dhi, (slo[0] - dlo[0], slo[1] - dlo[1]), (shi[0] - slo[0], shi[1] - slo[1])))
+        elif nm == "copy_within" and len(args) == 3 and _peel(args[0]) == TAIL:
+            r = args[1]
+            dst = L(args[2])
+            if r[0] != "agg" or dst is None:
+                ops.append(("?", "copy_within(%s)" % sym.fmt(r)))
+                continue
+            kind = r[1].rsplit("::", 1)[-1]
+            if kind == "RangeFrom":
+                a, b = L(r[2][0]), (0, T)
+            elif kind == "Range":
+                a, b = L(r[2][0]), L(r[2][1])
+            elif kind == "RangeTo":
+                a, b = (0, 0), L(r[2][0])
+            else:
+                a = b = None
+            if a is None or b is None:
+                ops.append(("?", "copy_within(%s)" % sym.fmt(r)))
+                continue
+            ln = (b[0] - a[0], b[1] - a[1])
+            ops.append(("old", dst, (dst[0] + ln[0], dst[1] + ln[1]), (a[0] - dst[0], a[1] - dst[1]), ln))
+        elif nm in ("copy_nonoverlapping", "copy") and len(args) == 3:
+            sp, dp = _ptr(args[0]), _ptr(args[1])
+            cnt = L(args[2])
+            if sp is None or dp is None or cnt is None:
+                ops.append(("?", "%s(%s, %s, %s)" % (nm, sym.fmt(args[0]), sym.fmt(args[1]), sym.fmt(args[2]))))
+                continue
+            dw = win(dp[0], TAIL) or ((C(0), None) if _peel(dp[0]) == TAIL else None)
+            sw = win(sp[0], DP)
+            if dw is None or sw is None:
+                ops.append(("?", "%s(%s, %s, ..)" % (nm, sym.fmt(args[0]), sym.fmt(args[1]))))
+                continue
+            dlo, slo = L(layout.add(dw[0], dp[1])), L(layout.add(sw[0], sp[1]))
+            if dlo is None or slo is None:
+                ops.append(("?", "%s with non-affine offsets" % nm))
+                continue
+            ops.append(("D", dlo, (dlo[0] + cnt[0], dlo[1] + cnt[1]), (slo[0] - dlo[0], slo[1] - dlo[1]), cnt))
+        elif nm in ("len", "index", "index_mut", "as_ptr", "as_mut_ptr", "as_mut_slice", "as_slice", "add", "deref", "deref_mut", "likely", "unlikely", "is_empty"):
+            continue
+        else:
+            # any other callee that receives the tail mutably
+            if any(find_all(a, lambda x: x[0] == "ref" and len(x) == 3 and x[1] is True and find_all(x[2], lambda y: y == TAIL)) for a in args):
+                ops.append(("?", "%s(%s)" % (c[1], ", ".join(sym.fmt(a) for a in args))[:200]))
+    for (bb, pl, v) in p.stores:
+        if not (start_index <= order.get(bb, -1) < end_index):
+            continue
+        npl = n(pl)
+        if npl != TAIL and find_all(npl, lambda x: x == TAIL):
+            ops.append(("?", "element store %s := %s" % (sym.fmt(npl), sym.fmt(_subst(n(v), D, TAIL, T))[:120])))
+        elif npl == TAIL:
+            ops.append(("?", "whole-array store %s" % sym.fmt(_subst(n(v), D, TAIL, T))[:160]))
+    return ops
+
+
+CASES = list(range(0, 9)) + [None]  # len(D) = 0..8 exactly, or len(D) >= 9 (symbolic)
+SYM_FROM = 9
+
+
+def _val(f, k):
+    """value of affine form (a, c) when len(D) = k; for the symbolic case return the form itself."""
+    return f[0] * k + f[1] if k is not None else f
+
+
+def _feasible(p, D, TAIL, T, env, k, extra=None):
+    for (bb, d, taken, vals) in p.conds:
+        e = _subst(n(d), D, TAIL, T, extra)
+        if e[0] != "bin" or e[1] not in ("Lt", "Le", "Eq", "Ne"):
+            continue
+        a, b = _lin(e[2], env), _lin(e[3], env)
+        if a is None or b is None:
+            continue
+        df = (b[0] - a[0], b[1] - a[1])  # rhs - lhs
+        if k is not None:
+            v = df[0] * k + df[1]
+            lo = hi = v
+        else:
+            # len(D) >= SYM_FROM
+            v0 = df[0] * SYM_FROM + df[1]
+            lo, hi = (v0, None) if df[0] > 0 else ((None, v0) if df[0] < 0 else (v0, v0))
+        if e[1] == "Lt":
+            truth = True if (lo is not None and lo > 0) else (False if (hi is not None and hi <= 0) else None)
+        elif e[1] == "Le":
+            truth = True if (lo is not None and lo >= 0) else (False if (hi is not None and hi < 0) else None)
+        elif e[1] == "Eq":
+            truth = True if (lo == hi == 0) else (False if ((lo is not None and lo > 0) or (hi is not None and hi < 0)) else None)
+        else:
+            truth = False if (lo == hi == 0) else (True if ((lo is not None and lo > 0) or (hi is not None and hi < 0)) else None)
+        if truth is None:
+            continue
+        if vals == [0]:
+            path_truth = (taken == "otherwise")
+        elif taken == "otherwise":
+            continue
+        else:
+            path_truth = bool(taken)
+        if path_truth != truth:
+            return False
+    return True
+
+
+def _simulate(ops, T, k):
+    """final tail cells after ops when len(D) = k (or symbolic): list of ('old', i) / ('D', a, c) (element a*len(D)+c of D);
+    returns (cells, None) or (None, reason) -- reason 'panic' when a window is out of range / lengths differ (R-11.4's business),
+    or a description when the case cannot be evaluated."""
+    cells = [("old", j) for j in range(T)]
+    for op in ops:
+        if op[0] == "?":
+            return None, "not understood: " + op[1]
+        kind, lo, hi, delta, ln = op
+        if k is not None:
+            lo_v, hi_v, ln_v = _val(lo, k), _val(hi, k), _val(ln, k)
+        else:
+            if lo[0] != 0 or hi[0] != 0:
+                return None, "tail window bounds depend on len(D) on a path feasible for arbitrarily long input"
+            lo_v, hi_v = lo[1], hi[1]
+            ln_v = None if ln[0] != 0 else ln[1]
+        if lo_v < 0 or hi_v > T or lo_v > hi_v:
+            return None, "panic"
+        if ln_v is not None and ln_v != hi_v - lo_v:
+            return None, "panic"
+        if ln_v is None and kind == "D":
+            # source length grows with len(D) but the destination is constant: copy_from_slice would panic
+            return None, "panic"
+        before = list(cells)
+        for j in range(lo_v, hi_v):
+            if kind == "D":
+                if k is not None:
+                    sidx = j + _val(delta, k)
+                    if sidx < 0 or sidx >= k:
+                        return None, "panic"
+                    cells[j] = ("D", 0, sidx)
+                else:
+                    cells[j] = ("D", delta[0], j + delta[1])
+            else:
+                if k is not None:
+                    sidx = j + _val(delta, k)
+                else:
+                    if delta[0] != 0:
+                        return None, "shift distance depends on len(D) on a path feasible for arbitrarily long input"
+                    sidx = j + delta[1]
+                if sidx < 0 or sidx >= T:
+                    return None, "panic"
+                cells[j] = before[sidx]
+    return cells, None
+
+
+def _expected(T, k):
+    out = []
+    for j in range(T):
+        if k is not None:
+            out.append(("old", k + j) if k + j < T else ("D", 0, k + j - T))
+        else:
+            out.append(("D", 1, j - T))
+    return out
+
+
+def tail_windows(ctx, F):
+    r = "R-03.5"
+    ctx.rule(r, "after the window loop over slice D the tail holds the last TAIL_SIZE bytes of old_tail ++ D: the tail writes on every loop-exit path are "
+                "evaluated as affine windows for len(D) = 0..8 and len(D) >= 9 (cases the path's own length tests exclude are skipped; "
+                "cases in which a write would panic are R-11.4's); the loop body itself never writes the tail", "N")
+    gf = common.generator_fields(F)
+    bs = F.method("update", "generate::inner::Generator<")
+    envs = layout.variant_envs(F)
+    ctx.instance(r)
+    if len(bs) != 1 or not gf or not envs:
+        ctx.missing(r, "inner Generator::update / variant constants", cfg=F.key)
+        return
+    b = bs[0]
+    S = sym.Sym(b)
+    paths = S.paths()
+    TAIL = ("field", ("deref", P(1)), gf["tail"])
+    rets = [p for p in paths if p.end == "return"]
+    loops = [p for p in paths if p.end == "loop"]
+    hdrs = {p.blocks[-1] for p in loops}
+    # TAIL_SIZE, the same for every variant
+    tvals = set()
+    for name, env in envs:
+        v = layout.ceval(("cpath", "generate::inner::Generator::<SIZE_CKSUM, SIZE_BODY, SIZE_BUCKETS, SIZE_IN_BYTES, SIZE_IN_STR_BYTES>::TAIL_SIZE"), env)
+        tvals.add(v)
+    if len(tvals) != 1 or None in tvals:
+        ctx.missing(r, "Generator::TAIL_SIZE value (got %s)" % sorted(map(str, tvals)), cfg=F.key)
+        return
+    T = tvals.pop()
+    env = envs[0][1]
+    bad = []
+    covered = {}
+    checked = 0
+    for p in rets:
+        hit = [i for i, bb in enumerate(p.blocks) if bb in hdrs]
+        if not hit:
+            continue
+        order = {bb: i for i, bb in enumerate(p.blocks)}
+        its = [c for c in p.calls if c[1].endswith("into_iter") and order.get(c[0], 1 << 30) <= hit[0]]
+        if not its:
+            bad.append("no into_iter call before the window loop")
+            continue
+        D = _iter_source(n(its[-1][2][0]))
+        ops = _tail_ops(p, hit[0], D, TAIL, T, env)
+        any_ok = False
+        for k in CASES:
+            label = "len=%d" % k if k is not None else "len>=%d" % SYM_FROM
+            if not _feasible(p, D, TAIL, T, env, k):
+                continue
+            cells, why = _simulate(ops, T, k)
+            if cells is None:
+                if why == "panic":
+                    continue
+                bad.append("[%s] %s" % (label, why))
+                continue
+            exp = _expected(T, k)
+            checked += 1
+            if cells != exp:
+                def show(cs):
+                    return "[" + ", ".join("old[%d]" % c[1] if c[0] == "old" else ("D[%s%+d]" % ("len" if c[1] else "", c[2]) if c[1] else "D[%d]" % c[2]) for c in cs) + "]"
+                bad.append("[%s] iterating %s leaves tail = %s; reference %s" % (label, sym.fmt(D)[:80], show(cells), show(exp)))
+            else:
+                any_ok = True
+                covered[label] = covered.get(label, 0) + 1
+        if not any_ok and not bad:
+            bad.append("a loop-exit path has no length case in which its tail writes are valid (ops: %s)" % [o[0] for o in ops])
+    want = ["len=%d" % k for k in range(0, 9)] + ["len>=%d" % SYM_FROM]
+    miss = [w for w in want if not covered.get(w)]
+    ctx.instance(r, checked)
+    ctx.ob(r, ("Generator::update", "tail-source-windows"), not bad and not miss and checked > 0,
+           "; ".join(sorted(set(bad))[:3]) or "length cases with no verified loop-exit path: %s" % miss, cfg=F.key, where=b.where(),
+           detail={"cases_verified": covered, "TAIL_SIZE": T})
+    # the loop body does not touch self.tail
+    lb = []
+    for p in loops:
+        hdr = p.blocks[-1]
+        first = p.blocks.index(hdr)
+        order = {}
+        for i, bb in enumerate(p.blocks):
+            order.setdefault(bb, i)
+        for (bb, pl, v) in p.stores:
+            if order.get(bb, -1) >= first and find_all(n(pl), lambda x: x == TAIL):
+                lb.append("store to %s inside the window loop" % sym.fmt(n(pl)))
+        for c in p.calls:
+            if order.get(c[0], -1) >= first and any(find_all(n(a), lambda x: x[0] == "ref" and len(x) == 3 and x[1] is True and find_all(x[2], lambda y: y == TAIL)) for a in c[2]):
+                lb.append("%s receives &mut tail inside the window loop" % c[1])
+    ctx.ob(r, ("Generator::update", "loop-body-leaves-tail-alone"), not lb and bool(loops), "; ".join(sorted(set(lb))[:3]) or "no loop paths", cfg=F.key, where=b.where())
+
+
+def prologue_windows(ctx, F, r="R-03.6"):
+    ctx.rule(r, "the tail-fill prologue appends: for tail_len = 0..TAIL_SIZE-1 and len(data) = 0..8 / >= 9, every feasible path writes "
+                "tail[tail_len + k] = data[k] for k < n = min(len(data), TAIL_SIZE - tail_len), stores tail_len + n, returns early only when "
+                "all of data was consumed, and otherwise continues with a slice starting at data[n]; with a full tail the slice starts at data[0]", "N")
+    gf = common.generator_fields(F)
+    bs = F.method("update", "generate::inner::Generator<")
+    envs = layout.variant_envs(F)
+    ctx.instance(r)
+    if len(bs) != 1 or not gf or not envs:
+        ctx.missing(r, "inner Generator::update / variant constants", cfg=F.key)
+        return
+    b = bs[0]
+    S = sym.Sym(b)
+    paths = S.paths()
+    TAIL = ("field", ("deref", P(1)), gf["tail"])
+    TLEN = ("field", ("deref", P(1)), gf["tail_len"])
+    env = envs[0][1]
+    T = layout.ceval(("cpath", "generate::inner::Generator::<SIZE_CKSUM, SIZE_BODY, SIZE_BUCKETS, SIZE_IN_BYTES, SIZE_IN_STR_BYTES>::TAIL_SIZE"), env)
+    if T is None:
+        ctx.missing(r, "Generator::TAIL_SIZE value", cfg=F.key)
+        return
+    loops = [p for p in paths if p.end == "loop"]
+    hdrs = {p.blocks[-1] for p in loops}
+    DATA = P(2)
+    DP = ("param", "D")
+    bad = []
+    verified = {}
+    n_checked = 0
+    for p in paths:
+        if p.end not in ("return", "loop"):
+            continue
+        order = {}
+        for i, bb in enumerate(p.blocks):
+            order.setdefault(bb, i)
+        hit = [i for i, bb in enumerate(p.blocks) if bb in hdrs]
+        end = hit[0] if hit else 1 << 30
+        if p.end == "loop" and len(hit) > 1:
+            # a loop path visits the header twice (entry, back edge); the prologue lies before the first visit
+            pass
+        its = [c for c in p.calls if c[1].endswith("into_iter") and order.get(c[0], 1 << 30) <= end] if hit else []
+        Dexpr = _iter_source(n(its[-1][2][0])) if its else None
+        tstores = [(bb, n(v)) for (bb, pl, v) in p.stores if n(pl) == TLEN]
+        for tl in range(0, T + 1):
+            extra = {("load", TLEN): C(tl)}
+            for k in CASES:
+                label = "tail_len=%d,len=%s" % (tl, k if k is not None else ">=%d" % SYM_FROM)
+                if not _feasible(p, DATA, TAIL, T, env, k, extra):
+                    continue
+                ops = _tail_ops(p, 0, DATA, TAIL, T, env, end_index=end, extra=extra)
+                cells, why = _simulate(ops, T, k)
+                if cells is None:
+                    if why != "panic":
+                        bad.append("[%s] %s" % (label, why))
+                    continue
+                nn = (min(k, T - tl) if k is not None else T - tl) if tl < T else 0
+                n_checked += 1
+                ok = True
+                for j in range(T):
+                    if j < tl:
+                        want = ("old", j)
+                    elif j < tl + nn:
+                        want = ("D", 0, j - tl)
+                    else:
+                        continue
+                    if cells[j] != want:
+                        ok = False
+                        bad.append("[%s] prologue leaves tail[%d] = %s; reference %s" % (label, j, cells[j], want))
+                # tail_len afterwards
+                if tstores:
+                    v = _lin(_subst(tstores[-1][1], DATA, TAIL, T, extra), env)
+                    val = None if v is None else (v[0] * k + v[1] if k is not None else (v[1] if v[0] == 0 else None))
+                    if val != tl + nn:
+                        ok = False
+                        bad.append("[%s] tail_len becomes %s; reference %d" % (label, val if val is not None else sym.fmt(tstores[-1][1]), tl + nn))
+                elif nn != 0:
+                    ok = False
+                    bad.append("[%s] %d byte(s) appended to the tail but tail_len is not updated" % (label, nn))
+                # what is consumed next
+                consumed_all = (k is not None and nn == k)
+                if Dexpr is not None:
+                    w = layout.window(_subst(Dexpr, DATA, TAIL, T, extra), DP)
+                    st = _lin(w[0], env) if w else None
+                    stv = None if st is None else (st[0] * k + st[1] if k is not None else (st[1] if st[0] == 0 else None))
+                    if stv != nn:
+                        ok = False
+                        bad.append("[%s] the window loop starts at data[%s]; reference data[%d]" % (label, stv if stv is not None else sym.fmt(Dexpr)[:80], nn))
+                elif p.end == "return" and not consumed_all:
+                    # returning without reaching the loop: fine only at the saturation guard
+                    sat = any(find_all(n(d), lambda x: x[0] == "cpath" and x[1].endswith("::MAX_LEN")) for (_, d, _, _) in p.conds)
+                    if not sat:
+                        ok = False
+                        bad.append("[%s] returns after consuming %d of the input bytes without reaching the window loop" % (label, nn))
+                if ok:
+                    verified[label] = verified.get(label, 0) + 1
+    want = ["tail_len=%d,len=%s" % (tl, k if k is not None else ">=%d" % SYM_FROM) for tl in range(0, T + 1) for k in CASES]
+    miss = [w for w in want if not verified.get(w)]
+    ctx.instance(r, n_checked)
+    ctx.ob(r, ("Generator::update", "prologue-windows"), not bad and not miss and n_checked > 0,
+           "; ".join(sorted(set(bad))[:3]) or "cases with no verified path: %s" % miss[:6], cfg=F.key, where=b.where(),
+           detail={"cases": len(want), "path_case_pairs_verified": sum(verified.values())})
 
 
 def wrappers(ctx, F):
